@@ -31,6 +31,7 @@ import Driver.KTableConc
 import Driver.Stop
 import Driver.MemPoolConc
 import Driver.KeyId
+import Driver.FutexGen
 import Driver.UnitMapLock
 
 def main (args : List String) : IO UInt32 := do
@@ -71,5 +72,6 @@ def main (args : List String) : IO UInt32 := do
   | ["stop"] => Driver.Stop.main; return 0
   | ["mempoolconc"] => Driver.MemPoolConc.main; return 0
   | ["keyid"] => Driver.KeyId.main; return 0
+  | ["futexgen"] => Driver.FutexGen.main; return 0
   | ["unitmaplock"] => Driver.UnitMapLock.main; return 0
   | _ => IO.eprintln "usage: driver <model>  (htable)"; return 2
